@@ -109,7 +109,7 @@ def main():
                 if rc:
                     m["status"] = "killed-by-suite"
                 else:
-                    rc, out = sh(["./check", a.check, "quick"], cwd="/verif", env=dict(ENV, VERIF_REPO=WT), timeout=900)
+                    rc, out = sh(["./check", a.check, "quick"], cwd="/verif", env=dict(ENV, VERIF_REPO=WT, VERIF_HARNESS_TIMEOUT="150"), timeout=900)
                     vio = [l for l in out.split("\n") if l.startswith("VIOLATION")]
                     if vio:
                         m["status"] = "caught"
